@@ -223,7 +223,8 @@ impl Sess {
                 } else {
                     None
                 };
-                let mut data = self.rng.bytes(self.rng.usize_below(12));
+                let dl = self.rng.usize_below(12);
+                let mut data = self.rng.bytes(dl);
                 if i == 0 {
                     data.extend_from_slice(&self.salt.to_le_bytes());
                     data.extend_from_slice(&self.si.to_le_bytes());
@@ -351,10 +352,14 @@ impl Sess {
                 if let Some(ps) = &parent_state {
                     for (ii, op) in tx.input_pts_iter().enumerate() {
                         let k = out_key(&op);
-                        let (cell, origin) = if let Some(c) = created.get(&k) {
-                            (c.clone(), "same_block")
+                        let (cell, origin, origin_desc) = if let Some(c) = created.get(&k) {
+                            (c.clone(), "same_block", "the same block".to_string())
                         } else if let Some(c) = ps.cells.get(&k) {
-                            (packed::CellOutput::from_slice(&c.output).unwrap(), "earlier_block")
+                            (
+                                packed::CellOutput::from_slice(&c.output).unwrap(),
+                                "earlier_block",
+                                format!("block {}#{}", hx(&c.block_hash), c.block_number),
+                            )
                         } else {
                             r.inconclusive("harness: a generated main-chain block spends a cell the model does not know");
                             return None;
@@ -363,13 +368,13 @@ impl Sess {
                         out.push((
                             "input_lock",
                             script_hash(&cell.lock()),
-                            format!("tx {ti} input {ii} ({}:{} created in {origin}) lock", hx(&k.0), k.1),
+                            format!("tx {ti} input {ii} ({}:{} created in {origin_desc}) lock", hx(&k.0), k.1),
                         ));
                         if let Some(t) = cell.type_().to_opt() {
                             out.push((
                                 "input_type",
                                 script_hash(&t),
-                                format!("tx {ti} input {ii} ({}:{} created in {origin}) type", hx(&k.0), k.1),
+                                format!("tx {ti} input {ii} ({}:{} created in {origin_desc}) type", hx(&k.0), k.1),
                             ));
                         }
                     }
@@ -747,7 +752,7 @@ fn run_session(si: u64, rng: &mut Rng, r: &mut Report, deadline: Instant, steps:
         } else {
             tip
         };
-        let x = s.gen(&parent);
+        let x = s.make_block(&parent);
         if !s.deliver(&x, r) {
             break;
         }
